@@ -1155,18 +1155,17 @@ theorem loadHistory_secondStore (rn : String) (cs : List Node) (hflat : noNested
   have hflat' : noNested (.dir rn cs (some ((firstStore w).add w2))) = true := hflat
   rw [findChildren_noNested _ [] hflat']
   have hchk : checkStore (some ((firstStore w).add w2)) = .ok () := by
-    by_cases hname : w.gen.fileName = w2.gen.fileName
-    · simp [checkStore, firstStore, HistStore.add, checkChain, hstate, hname, pure, Except.pure, bind,
-        Except.bind]
-    · have hname' : ¬ w2.gen.fileName = w.gen.fileName := fun h => hname h.symm
-      simp [checkStore, firstStore, HistStore.add, checkChain, hstate, hstate2, hname, hname', pure, Except.pure,
-        bind, Except.bind]
+    have hname : ¬ w.gen.fileName = w2.gen.fileName := by
+      intro h; rw [h, hparse2] at hparse; cases hparse
+    have hname' : ¬ w2.gen.fileName = w.gen.fileName := fun h => hname h.symm
+    simp [checkStore, firstStore, HistStore.add, checkChain, hstate, hstate2, hname, hname', pure, Except.pure,
+      bind, Except.bind]
   have hg1 : loadGens (firstStore w) = [⟨1, w.gen⟩] := by
-    have := MhlProps.C06.loadGens_add {} w 1 hparse hstate (by simp [loadGens])
+    have := MhlProps.C06.loadGens_add_lt {} w 1 hparse hstate (by simp [loadGens])
     rw [firstStore, this]
     rfl
   have hg : loadGens ((firstStore w).add w2) = [⟨1, w.gen⟩, ⟨2, w2.gen⟩] := by
-    rw [MhlProps.C06.loadGens_add (firstStore w) w2 2 hparse2 hstate2 (by rw [hg1]; simp), hg1]
+    rw [MhlProps.C06.loadGens_add_lt (firstStore w) w2 2 hparse2 hstate2 (by rw [hg1]; simp), hg1]
     rfl
   simp only [Node.hist, hchk, bind, Except.bind, pure, Except.pure, buildHist, hg]
   rfl
